@@ -67,7 +67,7 @@ def from_sympy(e):
             return _pow(from_sympy(b), Fraction(int(x.p), int(x.q)))
         raise Unsupported("symbolic exponent %s" % (x,))
     name = type(e).__name__
-    if name in ("sin", "cos", "exp", "tanh", "atan", "log", "tan"):
+    if name in ("sin", "cos", "exp", "tanh", "atan", "log", "tan", "asin", "acos"):
         return {"op": "fn", "f": name, "a": from_sympy(e.args[0])}
     if e is sympy.S.NaN or e is sympy.S.ComplexInfinity or e in (sympy.S.Infinity, sympy.S.NegativeInfinity):
         raise Unsupported("non-finite constant")
@@ -176,10 +176,10 @@ class _P:
                     if ex is None:
                         raise Unsupported("pow with non-constant exponent")
                     return _pow(args[0], ex)
-                if fn in ("sin", "cos", "exp", "tanh", "atan", "sqrt", "log", "tan"):
+                if fn in ("sin", "cos", "exp", "tanh", "atan", "sqrt", "log", "tan", "asin", "acos"):
                     return {"op": "fn", "f": fn, "a": args[0]}
                 raise Unsupported("C function %s" % fn)
-            if v in ("M_PI", "M_E", "M_PI_2", "M_PI_4", "M_SQRT2", "M_LN2", "INFINITY", "NAN"):
+            if v.startswith("M_") or v in ("INFINITY", "NAN", "HUGE_VAL"):
                 raise Unsupported("C math constant %s" % v)     # not a symbol; irrational constants are outside Expr
             return {"op": "sym", "name": v}
         raise Unsupported("C syntax at %s %s" % (k, v))
